@@ -281,3 +281,4 @@ LEVEL_TEXT = ('All strings up to length 3 (thorough 5) over an 8-character adver
               'are printed in six placement contexts at widths from 1 up; the literal found at the position must equal the value and every piece is inspected. '
               'Post-conditions run on every real call of the splitter/escaper, with a line-event budget as bounded restatement of termination.')
 LEVEL_NOTE = 'Trusts tokenize/ast; widths are exhaustive 1..24 only in the thorough tier, sampled otherwise; long strings are sampled.'
+ANCHORS = ['prettyprinter.pretty_str', 'prettyprinter.str_to_lines', 'prettyprinter.escape_str_for_quote', 'prettyprinter.determine_quote_strategy', 'prettyprinter.pretty_single_line_str', 'prettyprinter.highlight_escapes']
